@@ -78,6 +78,19 @@ def show_patch(p):
         return p
 
 
+def compare_classes(res):
+    """what Patch.Compare can see of a result: per patch the (name, VersionTo) of its updates and the NUMBER of fixed / introduced vulns"""
+    out = []
+    for p in ([] if res in ('-', '') else res.split(';')):
+        try:
+            ups, fixed, intro = p.split('~')
+        except ValueError:
+            return None
+        cnt = lambda x: 0 if x in ('-', '') else len(x.split(','))
+        out.append((tuple((e.split(':')[0], e.split(':')[2]) for e in ups.split(',') if e != '-'), cnt(fixed), cnt(intro)))
+    return out
+
+
 def patches_verdict(got, spec, how):
     """the schedule-independent specification (Lean: breadth-first closure, sorted, compacted) against what the implementation returned"""
     if got == spec:
@@ -263,12 +276,20 @@ def run(ctx):
                        '(C16_cache_setmap_overlap_not_linearizable, replayed on the real cache from the corpus)',
                        'lock discipline of RequestCache.cache/.calls is a kernel-checked table theorem (C16_cache_guarded); requestCacheCall.val/.err are synchronised by sync.WaitGroup, not by mu: '
                        'race freedom there is OBSERVED (all enumerated cache schedules run under the race detector), not proved',
-                       'CmpEqImpliesEq (Compare-equal patches are identical) and "all target versions parse or none does" are explicit hypotheses of C16_final, evaluated on every universe; '
-                       'universes violating them are generated on purpose and reported in coverage.hypothesis_violations (results on the real code DO differ across schedules there)',
+                       'CmpEqImpliesEq (Compare-equal patches are identical) and "all target versions parse or none does" are explicit hypotheses of C16_final_partial, evaluated on every universe. '
+                       'Where CmpEqImpliesEq fails (order still holds) the property itself still demands one result per input: the check compares all delivery orders of a universe with each other; '
+                       'the unchanged code fails that (KNOWN FINDING C16/compare-equal-distinct-patches, witness corpus/C16/alias-compare-equal.case). On those universes the check additionally '
+                       'demands the specification\'s result UP TO Compare-equality (sequence of (name, VersionTo) updates and fixed/introduced counts) — a stream check without a Lean theorem behind it. '
+                       'Mixed parsable/unparsable target versions (comparator cyclic, not produced by today\'s strategies) stay a recorded hypothesis violation (coverage.hypothesis_violations)',
                        'ConstructPatches is modelled for manifests with distinct requirement names, no new keys, vulnerabilities without subgraphs',
                        'version grammar of the universes: <major>.0.0 parses, ^x / ~x / ranges / 1x do not (asserted against deps.dev npm semver at generator start)',
                        'ticker table: accesses are syntactic (x.f with x a walkContext receiver/parameter/local); aliasing through other pointers is not tracked']
-    ctx.rule = ('chains: 48 (quick) / 144 (thorough) universes with one initial vulnerability whose fixes introduce new ones 1..8 levels deep, fan-out 1..3 per level, per-vuln (relax) '
+    ctx.rule = ('twins: 12 universes in which DISTINCT attempts produce the IDENTICAL patch (same manifest => same vulnerabilities) and then diverge — different follow-up id lists, different '
+                'final versions, twins again one level down, failing / no-op follow-ups; grouped and per-vuln branch, concrete and relax-style versions; random universes are manifest-consistent '
+                '(equal updates => equal vulnerability sets) so twins occur there too. aliases: 4 universes with one package required twice (npm alias), whose fixes are Compare-equal but '
+                'different patches (CmpEqImpliesEq false by a realistic route): per universe the results of ALL delivery orders and free runs are compared with each other '
+                '(known finding C16/compare-equal-distinct-patches on the unchanged code) and, up to Compare-equality, with the specification (checked on the stream, not proved). '
+                'chains: 48 (quick) / 144 (thorough) universes with one initial vulnerability whose fixes introduce new ones 1..8 levels deep, fan-out 1..3 per level, per-vuln (relax) '
                 'and grouped (override) branch, attempts over up to 9 (per-vuln) / 25 (grouped) accumulated ids — delivery orders enumerated with a cap AND run ungated under the Go scheduler '
                 '(GOMAXPROCS 1 and 16, 2/5 repetitions with Gosched/sleep perturbation before every attempt reads its ids), also under -race one case at a time (halt_on_error: a report is '
                 'attributed to the running case); patches: every delivery order (DFS with re-execution) of 14 fixed universes (2..4 initial vulns, follow-ups grouped and per-vuln, errors, empty patches, duplicates, '
@@ -367,7 +388,9 @@ def run(ctx):
                     and not r.startswith(('desync', 'incomplete', 'unspecified', 'bad-schedule')):
                 return patches_verdict(r, fm['spec'], 'under the delivery order %s' % '/'.join(
                     '[' + ','.join(bytes.fromhex(x).decode('utf-8', 'replace') for x in k.split('.')) + ']' for k in t[5].split('/') if k != '-'))
-            return None
+            return classes_verdict(r, fm, 'under the delivery order ' + t[5])
+        if t[0] == 'pfree' and fm.get('cmpeq') == '0':
+            return classes_verdict(fi.get('out', ''), fm, 'run freely (%s)' % t[5])
         if t[0] == 'pfree':
             r = fi.get('out', fi.get('_', ''))
             if r == 'panic':
@@ -377,18 +400,35 @@ def run(ctx):
             return None
         return cache_oracle(case, fi)
 
+    def classes_verdict(r, fm, how):
+        # universes where Compare-equal patches are NOT identical (CmpEqImpliesEq fails): which representative survives CompactFunc is the
+        # known order dependence; but the sequence of Compare-classes — one per attempt of the closure that Compare can tell apart — is still
+        # schedule-free (same multiset, sorted by a strict weak order, one survivor per class), so it must equal the specification's
+        if fm.get('cmpeq') == '0' and fm.get('order') == '1' and 'spec' in fm and not r.startswith(('desync', 'incomplete', 'unspecified', 'bad-schedule', 'error', 'panic')):
+            a, b = compare_classes(r), compare_classes(fm['spec'])
+            if a is not None and b is not None and a != b:
+                return ('ComputePatches %s returned patches %s; up to Patch.Compare-equality the schedule-independent result is %s (a whole Compare-class of patches is missing or extra, '
+                        'not just another representative of it)' % (how, [show_patch(p) for p in r.split(';')][:6], [show_patch(p) for p in fm['spec'].split(';')][:6]))
+        return None
+
     def classify(case, fi, fm):
         t = case.split(' ')
         if t[0] == 'patches':
             head = ' '.join(t[:5])
-            u = by_universe.setdefault(head, {'cmpeq': fm.get('cmpeq'), 'order': fm.get('order'), 'res': set(), 'n': 0})
+            u = by_universe.setdefault(head, {'cmpeq': fm.get('cmpeq'), 'order': fm.get('order'), 'res': set(), 'n': 0, 'sample': {}})
             u['res'].add(fi.get('raw', fi.get('res')))
+            u['sample'].setdefault(fi.get('raw', fi.get('res')), case)
             u['n'] += 1
             if fm.get('cmpeq') != '1':
                 u['cmpeq'] = fm.get('cmpeq')
             depth = max(k.split('=')[0].count('.') for k in t[4].split('|')) if t[4] != '-' else 0
             return 'patches grouped=%s cmpeq=%s order=%s ids<=%d' % (t[1], fm.get('cmpeq'), fm.get('order'), depth + 1)
         if t[0] == 'pfree':
+            head = 'patches ' + ' '.join(t[1:5])          # free runs of a universe belong to the same group as its enumerated delivery orders
+            u = by_universe.setdefault(head, {'cmpeq': fm.get('cmpeq'), 'order': fm.get('order'), 'res': set(), 'n': 0, 'sample': {}})
+            if fi.get('out') not in (None, 'error', 'panic'):
+                u['res'].add(fi['out'])
+                u['sample'].setdefault(fi['out'], case)
             depth = max(k.split('=')[0].count('.') for k in t[4].split('|')) if t[4] != '-' else 0
             return 'free grouped=%s ids<=%d %s' % (t[1], depth + 1, t[5].split('r')[0])
         return 'cache callers=%d keys=%d setmap=%s' % (t[1].count(',') + 1, len(set(t[1].split(','))), '1' if ',S' in t[2] else '0')
@@ -406,15 +446,27 @@ def run(ctx):
     # schedule independence observed on the implementation itself, per universe
     nu = len(by_universe)
     viol = {'cmpeq_violated': 0, 'mixed_version_forms': 0, 'of_which_results_differ_across_schedules': 0}
+    finding_reported = False
     for head, u in by_universe.items():
         hyp = u['cmpeq'] == '1' and u['order'] == '1'
-        if hyp and len(u['res']) > 1 and sum(1 for v in ctx.violations if v[2]) < 3:
-            ctx.violation('ComputePatches returned %d different results for ONE input under different delivery orders (hypotheses hold): %s' % (len(u['res']), sorted(u['res'])[:2]),
-                          [head + ' -'])
+        res = {r for r in u['res'] if r and not r.startswith(('desync', 'bad-schedule', 'incomplete'))}
+        if hyp and len(res) > 1 and sum(1 for v in ctx.violations if v[2]) < 3:
+            ctx.violation('ComputePatches returned %d different results for ONE input under different delivery orders (hypotheses hold): %s' % (len(res), sorted(res)[:2]),
+                          [u['sample'][r] for r in sorted(res)[:3]])
         if not hyp:
             viol['cmpeq_violated' if u['cmpeq'] != '1' else 'mixed_version_forms'] += 1
-            if len(u['res']) > 1:
+            if len(res) > 1:
                 viol['of_which_results_differ_across_schedules'] += 1
+                # the property demands ONE result per input whatever the delivery order; where Compare-equal patches differ (CmpEqImpliesEq false,
+                # comparator still a strict weak order) the unchanged code does not deliver that: finding class C16/compare-equal-distinct-patches
+                if u['cmpeq'] != '1' and u['order'] == '1':
+                    rs = sorted(res)
+                    what = ('%d different results for ONE input under different delivery orders: Patch.Compare ignores Fixed/Introduced ids, VersionFrom, Transitive, Type, so '
+                            'CompactFunc keeps whichever of two Compare-equal but different patches was delivered first, e.g. %s vs %s'
+                            % (len(rs), [show_patch(p) for p in rs[0].split(';')][:4], [show_patch(p) for p in rs[1].split(';')][:4]))
+                    if not ctx.known_finding('C16/compare-equal-distinct-patches', what) and not finding_reported:
+                        finding_reported = True
+                        ctx.violation('ComputePatches is not schedule-independent on this input — ' + what, [u['sample'][r] for r in rs[:3]])
     ctx.extra['universes'] = nu
     ctx.extra['schedules_per_universe_max'] = max([u['n'] for u in by_universe.values()] or [0])
     ctx.extra['hypothesis_violations'] = viol
